@@ -136,14 +136,15 @@ static void aggregation_case(const Ctx &c, const Dn &KD, int b, int cols) {
     vf::count("aggregation_cases");
 }
 
-// Ruge-Stuben: symmetric matrix in which every row has a negative off-diagonal entry (rows without one are
-// handled by a code path that reads unwritten memory -- that is the subject of C10 and excluded here).
+// Ruge-Stuben on symmetric matrices.  A row "has a strong neighbour" in the Ruge-Stuben sense iff it has a negative
+// off-diagonal entry (the most negative one always passes -a_ij >= eps_strong max|a_ik|, eps_strong < 1); rows without one
+// are F-rows without interpolation and are not subject to the row-sum law.
 static void rs_case(const Ctx &c, const Dn &D) {
     const int n = D.m;
-    for (int i = 0; i < n; ++i) {
-        bool neg = false; for (int j = 0; j < n; ++j) if (j != i && D.st(i, j) && D(i, j) < 0) neg = true;
-        if (!neg) { vf::count("rs_matrices_skipped_row_without_negative_offdiagonal"); return; }
-    }
+    std::vector<char> has_neg(n, 0); int nneg = 0;
+    for (int i = 0; i < n; ++i) { for (int j = 0; j < n; ++j) if (j != i && D.st(i, j) && D(i, j) < 0) has_neg[i] = 1; nneg += has_neg[i]; }
+    if (!nneg) { vf::count("rs_matrices_without_any_negative_offdiagonal_skipped"); return; }
+    if (nneg < n) vf::count("rs_matrices_with_rows_without_negative_offdiagonal");
     if (!is_symmetric(D)) return;
     auto A = mk::to_crs<double>(D);
     struct V { float eps; bool trunc; float etr; const char *name; };
@@ -153,13 +154,13 @@ static void rs_case(const Ctx &c, const Dn &D) {
         coarsening::ruge_stuben<Backend> rs(prm);
         std::shared_ptr<Crs> P, R;
         std::string at = vf::KS() << "rule=" << c.rule << " eps_strong=" << v.eps << " do_trunc=" << v.trunc << " eps_trunc=" << v.etr << " A=" << c.Ashow;
-        try { std::tie(P, R) = rs.transfer_operators(*A); } catch (const error::empty_level &) { vf::fail("rs.empty_level", c.key, "no C point although every row has a strong neighbour " + at); continue; }
+        try { std::tie(P, R) = rs.transfer_operators(*A); } catch (const error::empty_level &) { vf::fail("rs.empty_level", c.key, "no C point although some row has a strong neighbour " + at); continue; }
         Dn Pd; std::string err = mk::from_crs(*P, Pd, false);
         if (!err.empty()) { vf::fail("rs.wellformed", c.key, err + " " + at); continue; }
         vf::count("rs_cases");
         bool dropped = false;
         for (int i = 0; i < n; ++i) {
-            if (!(zero_row_sum(D, i) && D(i, i) > 0)) continue;
+            if (!(has_neg[i] && zero_row_sum(D, i) && D(i, i) > 0)) continue;
             long double s = 0, mag = 0; int k = 0;
             for (int q = 0; q < Pd.n; ++q) if (Pd.st(i, q)) { s += Pd(i, q); mag += std::abs(Pd(i, q)); ++k; }
             // alpha is built with <= 8 roundings, every weight with one more, the sum with k: (k + 10) u sum|w|
